@@ -31,7 +31,7 @@ SPEC = dict(
     ],
     technique='reference-model monitor + source-memory comparison under ASan/UBSan',
     exhaustive={Q: False, T: False},
-    jobs=[job('hist', 'h_string', 'hist', cases={Q: 10000, T: 480000}, procs=16, timeout=2400,
+    jobs=[job('hist', 'h_string', 'hist', cases={Q: 40000, T: 480000}, procs=16, timeout=2400,
               probes=['String.prepend(String)', 'String.replace(String)'])],
     floors={Q: dict(ops=1200000, variable_checks=7000000, view_terminator_checks=7000000, source_block_checks=3500000, query_results_compared=1000000,
                     self_arg_ops=90000, arg_shares_receiver_buffer_ops=50000, mut_owned_shared=70000, mut_literal_attached=25000, mut_attached_unterminated=20000,
